@@ -56,6 +56,26 @@ BipartitePost(p, S) ==   \* chung_lu / dcsbm: ids and members inside the prescri
   /\ NodeSet(S) = Range(p.nodes) /\ EdgeSet(S) \subseteq Range(p.sizes)
   /\ \A k \in DOMAIN p.maxdeg : TRUE
 
+\* randomizing generators return a new hypergraph derived from a source (p.src: member lists in edge order)
+BagCount(Q, X) == Cardinality({k \in DOMAIN Q : Range(Q[k]) = X})
+EqualBags(Q, R) == Len(Q) = Len(R) /\ \A k \in DOMAIN Q : BagCount(Q, Range(Q[k])) = BagCount(R, Range(Q[k]))
+OutMembers(S) == [k \in DOMAIN S.edges |-> SortSeqOf(S.e2n[S.edges[k]])]
+\* shuffle_hyperedges(S, order=p.d, prob): edges of other sizes untouched, as many edges of size d+1 as
+\* before, each a set of d+1 existing nodes; probability 0 (p.zero non-empty) changes nothing
+ShufflePost(p, S) ==
+  LET other(Q) == SelectSeq(Q, LAMBDA m : Len(m) # p.d + 1)
+      O == OutMembers(S) IN
+  /\ NodeSet(S) = Range(p.nodes)
+  /\ EqualBags(other(p.src), other(O))
+  /\ Len(O) = Len(p.src)
+  /\ (p.zero # <<>> => EqualBags(p.src, O))
+\* node_swap(H, a, b, order=p.d or -1 for all): a and b exchanged in every edge of the selected order
+NodeSwapPost(p, S) ==
+  LET sw(x) == IF x = p.a THEN p.b ELSE IF x = p.b THEN p.a ELSE x
+      sel(m) == p.d = -1 \/ Len(m) = p.d + 1
+      exp == [k \in DOMAIN p.src |-> IF sel(p.src[k]) THEN SortSeqOf({sw(x) : x \in Range(p.src[k])}) ELSE p.src[k]]
+  IN NodeSet(S) = Range(p.nodes) /\ EqualBags(exp, OutMembers(S))
+
 \* ring_lattice(n, d, k, l): for every node v and every start in v+1 .. v+k/2 the edge
 \* {v} U {(start + l + i) mod n : i < d-1}
 RingEdges(p) ==
@@ -112,6 +132,9 @@ GenPost(p, S) ==
     [] p.gen = "block" -> BlockPost(p, S)
     [] p.gen = "config" -> ConfigPost(p, S)
     [] p.gen = "bipartite" -> BipartitePost(p, S)
+    [] p.gen = "shuffle" -> ShufflePost(p, S)
+    [] p.gen = "node_swap" -> NodeSwapPost(p, S)
+    [] p.gen = "trivial" -> NodeSet(S) = V(p.n) /\ S.edges = <<>> /\ Len(S.nodes) = p.n
     [] p.gen = "ring" -> RingPost(p, S)
     [] p.gen = "star_clique" -> StarCliquePost(p, S)
     [] p.gen = "sunflower" -> SunflowerPost(p, S)
